@@ -33,7 +33,7 @@ CHECKS["C02"] = dict(
 
 CHECKS["C13"] = dict(
     text="lister x ticker x time.Timer x list worker x consumer as a labelled transition system whose actions are the select cases: by the closed-set technique (a finite set of states checked closed under every action contains every reachable state) proved for all action sequences of any length: one list at a time, no reachable state stuck, next list start always reachable, termination reachable from every state using only stop/ticker/worker actions, nothing left after Done; a clocked refinement proves by an inductive invariant that every observable trace passes trace_ok (each start >= previous consumption + 0.9 period); nextPeriod bounds over Q. Correspondence: lister+ticker in isolation (verif export) in synctest virtual time over the (period, latency, delay) grid, stop swept across the cycle; the real traces are checked by the extracted trace_ok, plus progress/shutdown/deadlock oracles.",
-    note="Go channel/select/timer semantics are modelled. Float rounding in nextPeriod is partial (2ns slack). Model of the code after the fix: commit for D3; the pre-fix model and its deadlock witness are kept as a theorem.",
+    note="Go channel/select/timer semantics are modelled. nextPeriod is also proved in IEEE-754 binary64 (coq/float, Flocq): next_period_binary64 / next_period_ns, within 1.5 ns of [0.9 P, 1.1 P + 1]; these two theorems depend on four standard-library axioms (ClassicalDedekindReals.sig_forall_dec, sig_not_dec, FunctionalExtensionality.functional_extensionality_dep, Classical_Prop.classic), whitelisted by ./check for that file only. Model of the code after the fix: commit for D3; the pre-fix model and its deadlock witness are kept as a theorem.",
     design="6/C13", technique="Coq proof (closed-set reachability over the finite control skeleton + inductive clocked invariant) + model-derived trace predicate evaluated on virtual-time traces of the real lister")
 
 CHECKS["C04"] = dict(
@@ -118,7 +118,7 @@ def main():
                 "replay_cmd_template": "./check %s --replay {path}" % pid,
                 "engine": "coq+kverif",
                 "level_claimed": {"category": "proof", "text": c["text"], "design_ref": c["design"]},
-                "level_note": LEVEL_NOTE + c["note"],
+                "level_note": (LEVEL_NOTE.replace("no axioms (Print Assumptions: closed under the global context)", "no axioms for props/C13.v (closed under the global context); the two binary64 theorems of coq/float depend on four named standard-library axioms") if pid == "C13" else LEVEL_NOTE) + c["note"],
                 "technique": c["technique"],
             })
         else:
